@@ -9,7 +9,7 @@ EXPLANATION = ('Bounded symbolic execution (CrossHair + z3) of the real suggest_
                'longer descriptions are covered by skeletons with symbolic words.')
 FUNCTIONS = ['commands.discover.suggest_pattern', 'suggest_merchant_name', 'suggest_match_expr', 'suggest_merchants_rule',
              'merchant_engine.parse_merchants', 'MerchantEngine.match', 'expr_parser._fn_regex/_fn_contains']
-BOUNDS = 'free descriptions <= 2 (quick) / 3 (thorough) chars over the alphabet a B 1 blank * . \\ " # ] ; skeletons with words <= 2 chars over a B 9 . *'
+BOUNDS = 'free descriptions <= 2 (quick) / 3 (thorough) chars over the alphabet a B 1 blank * . \\ " # ] ; skeletons with words of 1 char over a B 9 . * (thorough: two-word skeletons also 1-2 chars over a 9 *)'
 OUTSIDE = 'descriptions outside the alphabet/skeletons; non-ASCII (upper-casing of non-ASCII text)'
 STUBS = []
 TRUSTED = []
@@ -74,22 +74,40 @@ SKELETONS = {
 WLEN = 1
 
 
-def skeleton(key, wlen=1):
-    templ = SKELETONS[key]
-    global WLEN
-    WLEN = wlen
+WALPHA = 'aB9.*'
 
-    def ob(w1: str, w2: str, w3: str) -> bool:
+
+def skeleton(key, wlen=1, alpha='aB9.*'):
+    templ = SKELETONS[key]
+    global WLEN, WALPHA
+    WLEN, WALPHA = wlen, alpha
+
+    def ob3(w1: str, w2: str, w3: str) -> bool:
         """
-        pre: 1 <= len(w1) <= WLEN and 1 <= len(w2) <= WLEN and len(w3) == 1 and all(c in 'aB9.*' for c in w1 + w2 + w3)
+        pre: 1 <= len(w1) <= WLEN and 1 <= len(w2) <= WLEN and len(w3) == 1 and all(c in WALPHA for c in w1 + w2 + w3)
         post: _
         """
         reset_tally_caches()
-        if '{w3}' not in templ:
-            w3 = 'z'
         desc = templ.replace('{w1}', w1).replace('{w2}', w2).replace('{w3}', w3)
         return post(_check(desc))
-    return ob
+
+    def ob2(w1: str, w2: str) -> bool:
+        """
+        pre: 1 <= len(w1) <= WLEN and 1 <= len(w2) <= WLEN and all(c in WALPHA for c in w1 + w2)
+        post: _
+        """
+        reset_tally_caches()
+        desc = templ.replace('{w1}', w1).replace('{w2}', w2)
+        return post(_check(desc))
+
+    def ob1(w1: str) -> bool:
+        """
+        pre: 1 <= len(w1) <= WLEN + 1 and all(c in WALPHA for c in w1)
+        post: _
+        """
+        reset_tally_caches()
+        return post(_check(templ.replace('{w1}', w1)))
+    return ob3 if '{w3}' in templ else (ob2 if '{w2}' in templ else ob1)
 
 
 PAIRS = [
@@ -134,8 +152,13 @@ def obligations(tier, seed):
     obs = [Obligation(id='free', factory='free', params={'dlen': 2 if q else 3}, timeout=170 if q else 1500, group='free descriptions',
                       bounds=f'description 1..{2 if q else 3} chars over the alphabet {ALPHABET!r}')]
     for k in SKELETONS:
-        obs.append(Obligation(id=f'skeleton-{k}', factory='skeleton', params={'key': k, 'wlen': 1 if q else 2}, timeout=170 if q else 1500, group='structured descriptions',
-                              bounds=f'{SKELETONS[k]!r} with words of 1..{1 if q else 2} chars over a B 9 . *'))
+        three = '{w3}' in SKELETONS[k]
+        wl, al = (1, 'aB9.*') if q else ((1, 'aB9.*') if three else (2, 'a9*'))
+        obs.append(Obligation(id=f'skeleton-{k}', factory='skeleton', params={'key': k, 'wlen': wl, 'alpha': al}, timeout=170 if q else 1500, group='structured descriptions',
+                              bounds=f'{SKELETONS[k]!r} with words of 1..{wl} chars over {" ".join(al)}' + ('' if q or three else '; plus the quick bounds (1 char over a B 9 . *)')))
+        if not q and not three:
+            obs.append(Obligation(id=f'skeleton-{k}-w1', factory='skeleton', params={'key': k, 'wlen': 1, 'alpha': 'aB9.*'}, timeout=300, group='structured descriptions',
+                                  bounds=f'{SKELETONS[k]!r} with words of 1 char over a B 9 . *'))
     for i in range(len(PAIRS)):
         obs.append(Obligation(id=f'combined-{i}', factory='combined', params={'i': i}, timeout=170 if q else 900, group='suggestions written to one file',
                               bounds=f'descriptions {PAIRS[i]!r} with words of 1-2 chars over a B 9; both suggested rules in one rules file'))
